@@ -18,6 +18,7 @@ Post(e) ==
     [] e.ev = "Ensure"  -> IF e.ok THEN Set(e.x, content[e.x] \cup {Norm(e.t)}) ELSE content
     [] e.ev = "Del"     -> IF e.removes THEN Set(e.x, content[e.x] \ {Norm(e.t)}) ELSE content
     [] e.ev = "Clone"   -> Set(e.y, content[e.x])
+    [] e.ev = "CloneFrom" -> IF e.x \in DOMAIN content /\ e.y \in DOMAIN content THEN Set(e.y, content[e.x]) ELSE content
     [] e.ev = "Drop"    -> Unset(e.x)
     [] e.ev = "Swap"    -> IF e.x \in DOMAIN content /\ e.y \in DOMAIN content
                            THEN [z \in DOMAIN content |-> IF z = e.x THEN content[e.y] ELSE IF z = e.y THEN content[e.x] ELSE content[z]]
@@ -31,6 +32,7 @@ Judge(e, c) ==
   ELSE IF \E i \in 1..Len(e.obs) : ~e.obs[i].audit THEN "not-self-contained"
   ELSE IF \E i \in 1..Len(e.obs) : {Norm(e.obs[i].content[j]) : j \in 1..Len(e.obs[i].content)} # c[e.obs[i].id] THEN "content"
   ELSE IF \E i \in 1..Len(e.obs) : Len(e.obs[i].content) # Cardinality(c[e.obs[i].id]) THEN "duplicates"
+  ELSE IF \E i \in 1..Len(e.obs) : \E k \in 1..Len(e.obs[i].alt) : e.obs[i].alt[k] # e.obs[i].content THEN "index-arms-disagree"
   ELSE "ok"
 Next == /\ l <= Len(Rec) /\ l' = l + 1
         /\ LET e == Rec[l] IN
